@@ -89,11 +89,11 @@ pub fn spdp_datagram(id: u32, sn: i64, domain_in_msg: Option<i32>, tag: Option<&
 }
 
 #[allow(clippy::too_many_arguments)]
-pub async fn foreign_spdp(w: &Rc<World>, id: u32, dst_p: u32, _domain: i32, domain_in_msg: Option<i32>, tag: Option<String>, lease_ms: u64, every_ms: u64, count: u32) -> Res {
+pub async fn foreign_spdp(w: &Rc<World>, id: u32, dst_p: u32, _domain: i32, domain_in_msg: Option<i32>, tag: Option<String>, lease_ms: u64, every_ms: u64, count: u32, sn0: i64) -> Res {
     let Some(node) = w.node_of(dst_p) else { return Res::Skipped("no participant") };
     let mut last = 0;
     for i in 0..count {
-        let d = spdp_datagram(id, i as i64 + 1, domain_in_msg, tag.as_deref(), lease_ms * 1_000_000);
+        let d = spdp_datagram(id, sn0 + i as i64 + 1, domain_in_msg, tag.as_deref(), lease_ms * 1_000_000);
         let lat = net::with_net(|n| n.plan.latency_us) * 1000;
         net::inject(node, Port::MetaMulti, d, lat);
         last = now_ns() + lat;
